@@ -204,8 +204,11 @@ func render(p *prng.R, f field, feats map[string]bool) []byte {
 		}
 	}
 	if p.Chance(1, 8) {
-		b.WriteString(prng.Pick(p, []string{" ", "\t", "  \t"}))
-		feats["trailing-wsp-in-field"] = true
+		// (drawn in any case; left out where it would push the line over 998 octets)
+		if t := prng.Pick(p, []string{" ", "\t", "  \t"}); lineLen+len(t) <= maxLine {
+			b.WriteString(t)
+			feats["trailing-wsp-in-field"] = true
+		}
 	}
 	b.WriteString("\r\n")
 	return b.Bytes()
